@@ -24,7 +24,10 @@ var c05big, c05switch bool
 
 func runC05switch(rc *RunCtx) *simkit.Violation {
 	c05switch = true
-	defer func() { c05switch = false }()
+	// real directories: afero's MemMapFs lets a file be created under a path that is a regular file and removes
+	// non-empty directories, which turns this failure into a silently wrong tree that no real file system produces
+	osDiskRoot, osDiskSeq = rc.Dir, 0
+	defer func() { c05switch, osDiskRoot = false, "" }()
 	return runC05(rc, false)
 }
 
